@@ -4,6 +4,7 @@
 # it (evidence/replays under /dev/shm), prints one line per check, removes the worktree.
 P=$1; shift
 [ -d "$P" ] && P="$P/patch.diff"
+P=$(readlink -f "$P")
 WT=/tmp/seed_eval_$$
 git -C /repo worktree add -q "$WT" HEAD || exit 2
 if ! git -C "$WT" apply "$P"; then echo "patch does not apply"; git -C /repo worktree remove --force "$WT"; exit 2; fi
